@@ -667,6 +667,8 @@ def main(argv: list[str]) -> int:
         obs: list[Any] = []
         try:
             for kind, hst, offs in buckets[wid]:
+                if len(problems) >= 12:
+                    break       # enough counterexamples: a daemon that hangs costs minutes per further behaviour
                 exp = {k: dict(val, out=val["out"].replace("PROG", d.prog)) for k, val in expected_check.items()}
                 bad, seen = run_history(d, hst, exp, offs)
                 n += 1
